@@ -360,6 +360,8 @@ where
     }
 
     fn resolve_type_elements(&self, ty: &TsType, props: &mut Vec<RefinedTsTypeElement>) {
+        #[cfg(feature = "verif-hooks")]
+        let _verif_guard = crate::verif::resolve_enter(0);
         match ty {
             TsType::TsTypeLit(TsTypeLit { members, .. }) => {
                 props.extend(members.iter().filter_map(|member| match member {
@@ -588,6 +590,8 @@ where
     }
 
     fn resolve_string_or_union_strings(&self, ty: &TsType) -> Vec<Atom> {
+        #[cfg(feature = "verif-hooks")]
+        let _verif_guard = crate::verif::resolve_enter(1);
         match ty {
             TsType::TsLitType(TsLitType {
                 lit: TsLit::Str(key),
@@ -639,6 +643,8 @@ where
     }
 
     fn resolve_indexed_access(&self, obj: &TsType, index: &TsType) -> Option<TsType> {
+        #[cfg(feature = "verif-hooks")]
+        let _verif_guard = crate::verif::resolve_enter(2);
         match obj {
             TsType::TsTypeRef(TsTypeRef {
                 type_name: TsEntityName::Ident(ident),
@@ -942,6 +948,8 @@ where
     }
 
     fn infer_runtime_type(&self, ty: &TsType) -> IndexSet<Option<Atom>> {
+        #[cfg(feature = "verif-hooks")]
+        let _verif_guard = crate::verif::resolve_enter(3);
         let mut runtime_types = IndexSet::with_capacity(1);
         match ty {
             TsType::TsKeywordType(keyword) => match keyword.kind {
